@@ -31,6 +31,7 @@ def run(c):
     for name, conc, progs in (
             ("free", dict(workload="contend", txns=4, keys=4, slot=4, sched="free", max_step=8, budget=True), c.pick(10, 100)),
             ("stall", dict(workload="contend", txns=3, keys=4, slot=4, sched="stall", max_step=8, budget=True), c.pick(8, 80)),
+            ("empty", dict(workload="disjoint", txns=2, keys=0, slot=2, sched="gate", max_step=8, empty=True, budget=True), c.pick(6, 40)),
             ("die", dict(workload="contend", txns=3, keys=4, slot=4, sched="stall", die=True, max_step=8, budget=True), c.pick(5, 40))):
         traces, _ = _conc.run_conc(c, binp, "b" + name, progs, conc, timeout=3000)
         total += len(traces)
@@ -42,7 +43,7 @@ def run(c):
             red.append((n, h, keep))
         # after a holder that DIED the follow-up may legitimately be refused until the one-hour reservation expiry: only its
         # return within the budget is asserted there (Lax); after a stalled holder that resumed it must commit (Strict)
-        for r in txnlib.validate(c, red, "TxnStoreTraceLax.cfg" if name == "die" else "TxnStoreTrace.cfg", chunk=10, parallel=6):
+        for r in txnlib.validate(c, red, "TxnStoreTraceLax.cfg" if name in ("die", "empty") else "TxnStoreTrace.cfg", chunk=10, parallel=6):
             ev, raw = txnlib.describe(r)
             if raw.get("ev") == "CommitEnd" and raw.get("budget") and raw.get("ms", 0) > raw["budget"] + 1500:
                 note = raw.get("note", "")
